@@ -1100,6 +1100,10 @@ func compileNumberForStmt(context *funcContext, stmt *ast.NumberForStmt) { // {{
 	context.LeaveBlock()
 
 	flpc := code.LastPC()
+	if flpc+1-bodypc > opMaxArgSbx {
+		// neither FORLOOP's backward nor FORPREP's forward displacement fits in sBx
+		raiseCompileError(context, sline(stmt), "too long to jump.")
+	}
 	code.AddASbx(OP_FORLOOP, rindex, bodypc-(flpc+1), sline(stmt))
 
 	context.SetLabelPc(endlabel, code.LastPC())
@@ -1837,7 +1841,7 @@ func patchCode(context *funcContext) { // {{{
 			count := 0 // avoiding infinite loops
 			for jmp := inst; opGetOpCode(jmp) == OP_JMP && count < 5; jmp = context.Code.At(pc + distance + 1) {
 				d := context.GetLabelPc(opGetArgSbx(jmp)) - pc
-				if d > opMaxArgSbx {
+				if d > opMaxArgSbx || d < -opMaxArgSbx {
 					if distance == 0 {
 						raiseCompileError(context, context.Proto.LineDefined, "too long to jump.")
 					}
